@@ -9,6 +9,10 @@
                                       ClassifyEncryptedStreamAndMakeDecoder on a reader delivering <bytes> (the
                                       implementation reads them in fragmentation <frag>; the model does not depend on it)
   bf.dispatchs <cap> <secrets> <ls> <lp> <ie> <lsig> <resolver> <script>   the same on the bufio machine over a script
+  bf.dispatchb <size> <preops> <cap> <secrets> <ls> <lp> <ie> <lsig> <resolver> <script>
+                                      the source handed to the dispatcher already IS a `bufio.NewReaderSize(script, size)`
+                                      on which <preops> (as in bf.trace, or `-`) were called: `bufio.NewReader` returns it
+                                      unchanged when size ≥ 4096
   script entries as in Driver/Streams: `<hex>` data, `<hex>!` data + I/O error, `<hex>$` data + EOF
 -/
 import Driver.Util
@@ -40,6 +44,17 @@ def traceB : List String → BState → List String → List String
         let (d, e, s1) := read n s
         traceB ops s1 (s!"{toHex d}:{showBErr e}" :: tr)
       else ["bad"]
+
+/-- the state after a list of `p<n>` / `r<cap>` calls -/
+def runOps : List String → BState → Option BState
+  | [], s => some s
+  | op :: ops, s =>
+    match (op.drop 1).toString.toNat? with
+    | none => none
+    | some n =>
+      if op.startsWith "p" then runOps ops (peek n s).2.2
+      else if op.startsWith "r" then runOps ops (read n s).2.2
+      else none
 
 def showMV : MVerdict (Bool × Bytes × Int × Version) → String
   | .v (.ok (arm, br, t, v)) => s!"ok armored={arm} {toHex br} {t} {showVer v}"
@@ -82,8 +97,22 @@ def handle (toks : List String) : Option String :=
     | some cap, some secrets, some res, some src =>
       match mkKeyring secrets ls lp ie lsig with
       | none => none
-      | some kr => some (showResult (Dispatch.dispatchM RealPrims kr res cap (scriptLen src + 8) src))
+      | some kr => some (showResult (Dispatch.dispatchSrc RealPrims kr res cap (scriptLen src + 8) src))
     | _, _, _, _ => none
+  | ["bf.dispatchb", size, preops, cap, secrets, ls, lp, ie, lsig, resolver, script] =>
+    match size.toNat?, cap.toNat?, hexList secrets, mkResolver resolver, parseScript script with
+    | some size, some cap, some secrets, some res, some src =>
+      match mkKeyring secrets ls lp ie lsig with
+      | none => none
+      | some kr =>
+        -- `source` already is a `*bufio.Reader` (size `size`, used before by `preops`):
+        -- `bufio.NewReader(source)` is `source` itself when its buffer is ≥ 4096 bytes
+        if max size minReadBufferSize < defaultBufSize then some "unmodelled bufio.Reader_smaller_than_4096_wrapped_again"
+        else
+          match runOps (if preops = "-" then [] else preops.splitOn ",") (newReaderSize src size) with
+          | none => none
+          | some s0 => some (showResult (Dispatch.dispatchM RealPrims kr res cap (scriptLen src + s0.buf.length + 8) s0))
+    | _, _, _, _, _ => none
   | ["bf.trace", size, ops, script] =>
     match size.toNat?, parseScript script with
     | some size, some src =>
